@@ -83,8 +83,20 @@ impl CleanMarkerStore {
                 format!("clean marker serialize failed: {:?}", e),
             )
         })?;
+        #[cfg(walrus_verif)]
+        crate::wal::verif::io(crate::wal::verif::Io::WriteFile {
+            path: &tmp_path,
+            data: &bytes,
+        });
         fs::write(&tmp_path, &bytes)?;
+        #[cfg(walrus_verif)]
+        crate::wal::verif::io(crate::wal::verif::Io::FsyncFile { path: &tmp_path });
         fs::File::open(&tmp_path)?.sync_all()?;
+        #[cfg(walrus_verif)]
+        crate::wal::verif::io(crate::wal::verif::Io::Rename {
+            from: &tmp_path,
+            to: path,
+        });
         fs::rename(&tmp_path, path)?;
         Ok(())
     }
